@@ -208,14 +208,18 @@ C(f"{F}:Parser.make_syntax_error", params={**P, "message": "str"}, returns="obj:
 C(f"{F}:Parser.raise_syntax_error", params={**P, "message": "str"}, requires=TKW, always_raises=True, raises=["SyntaxError"],
   raises_ensures=[WF], modifies=ERRMOD, properties=["C11"])
 
+# C11 "points into the offending source": the error carries the message given and starts where the node / token starts (1-based column)
+ERR_AT = lambda n: f"exc.lineno == node_start({n})[0] and exc.offset == node_start({n})[1] + 1"
 C(f"{F}:Parser.raise_syntax_error_known_location", params={**P, "message": "str", "node": NODE}, requires=TKW + ["node_wf(node)"],
-  always_raises=True, raises=["SyntaxError"], raises_ensures=[WF], modifies=ERRMOD, properties=["C11"])
+  always_raises=True, raises=["SyntaxError"], raises_ensures=[WF, "exc.msg == message", ERR_AT("node")], modifies=ERRMOD, properties=["C11"])
 
 C(f"{F}:Parser.raise_syntax_error_known_range", params={**P, "message": "str", "start_node": NODE, "end_node": NODE},
   requires=TKW + ["node_wf(start_node)", "node_wf(end_node)",
                   # the range is ordered: the first node starts no later than the second one ends (obligation of every call site)
                   "pos_le(node_start(start_node), node_end(end_node))"],
-  always_raises=True, raises=["SyntaxError"], raises_ensures=[WF], modifies=ERRMOD, properties=["C11"])
+  always_raises=True, raises=["SyntaxError"], raises_ensures=[WF, "exc.msg == message", ERR_AT("start_node"),
+                                                              "exc.end_lineno == node_end(end_node)[0] and exc.end_offset == node_end(end_node)[1] + 1"],
+  modifies=ERRMOD, properties=["C11"])
 
 C(f"{F}:Parser.raise_syntax_error_starting_from", params={**P, "message": "str", "start_node": NODE},
   requires=TKW + ["node_wf(start_node)", "len(self._tokenizer._tokens) > 0",
@@ -255,7 +259,7 @@ C(f"{F}:Parser._append_node_or_token", params={"self": "obj:Parser", "tree": f"o
 C(f"{F}:Parser.literal_eval", params={"self": "obj:Parser", "token": "Tok"}, returns="lit",
   requires=TKW + ["tok_wf(token)"],
   ensures=["lit_val(result) == le_val(token.string)", "lit_isbytes(result) == le_isbytes(token.string)", "lit_numkind(result) == le_numkind(token.string)", *TKW],
-  raises=["SyntaxError"], may_raise=["SyntaxError"], raises_ensures=[WF], modifies=ERRMOD, properties=["C01", "C11", "C03"])
+  raises=["SyntaxError"], may_raise=["SyntaxError"], raises_ensures=[WF, ERR_AT("token")], modifies=ERRMOD, properties=["C01", "C11", "C03"])
 
 # the two halves of a complex literal in a match pattern (`case 1+2j`): the real part must be an int / float literal, the imaginary one a complex
 for _nm, _kind, _what in (("ensure_real", 1, "real"), ("ensure_imaginary", 2, "imaginary")):
@@ -523,7 +527,8 @@ C(f"{F}:Parser.get_expr_name", params={"self": "obj:Parser", "node": "obj:PosNod
   ensures=[], raises=[], pure=True, properties=["C03"])
 C(f"{F}:Parser.raise_syntax_error_invalid_target", params={"self": "obj:Parser", "target": "int", "node": TNODE},
   requires=TKW + TGT + ["tree_wf(node)"],
-  ensures=["is_none(result)"], raises=["SyntaxError"], raises_ensures=[WF], modifies=ERRMOD, properties=["C02", "C11", "C03"])
+  # the error points at the node the search singled out (the local `invalid_target`), not at the whole target
+  ensures=["is_none(result)"], raises=["SyntaxError"], raises_ensures=[WF, ERR_AT("invalid_target")], modifies=ERRMOD, properties=["C02", "C11", "C03"])
 
 # the constructor: an empty memo cache, first pass (invalid rules off), no pending path prefix, and never a target version above the running one
 C(f"{F}:Parser.__init__", params={"self": "obj:Parser#strings", "tokenizer": "obj:Tokenizer", "verbose": "bool", "filename": "str", "py_version": "opt[version]"},
